@@ -10,7 +10,7 @@ VERIF = os.path.dirname(os.path.dirname(os.path.abspath(__file__)))
 
 CLANG = 'clang++-14'
 BASE_FLAGS = ['-std=gnu++11', '-fno-exceptions', '-fno-rtti', '-DNDEBUG', '-fno-strict-aliasing',
-              '-ffast-math', '-fno-unsafe-math-optimizations', '-fno-stack-protector',
+              '-ffast-math', '-fno-unsafe-math-optimizations', '-fno-trapping-math', '-fno-stack-protector',
               '-O1', '-fno-vectorize', '-fno-slp-vectorize', '-fno-unroll-loops', '-w',
               '-DINTERROGATE_VERIF']
 GETOPT = ['-DHAVE_GETOPT=1', '-DHAVE_GETOPT_LONG_ONLY=1', '-DPHAVE_GETOPT_H=1']
